@@ -10,7 +10,7 @@ mkdir -p "$tmp/repo" "$tmp/ev"
 (cd /repo && cp *.go go.mod go.sum "$tmp/repo/" 2>/dev/null)
 rm -f "$tmp"/repo/*_test.go
 (cd "$tmp/repo" && git init -q . 2>/dev/null && git apply --whitespace=nowarn "$patch") || { echo "PATCH DOES NOT APPLY"; exit 3; }
-out=$(/verif/bin/apdlint -repo "$tmp/repo" -property "$props" -evidence-dir "$tmp/ev" -tier quick 2>&1)
+out=$(${APDLINT:-/verif/bin/apdlint} -repo "$tmp/repo" -property "$props" -evidence-dir "$tmp/ev" -tier quick 2>&1)
 code=$?
 echo "$out" | grep -A1 "^VIOLATION" | grep -v "^VIOLATION" | grep -v "^--" | sed -E 's/^  ([^:]+:[0-9]+): (C[0-9]+\.R[0-9]+): [^…]*…?:? /  \1 \2 /' | cut -c1-330 | sort -u
 echo "$out" | grep "CHECK BROKEN" | cut -c1-300 | sort -u
